@@ -13,7 +13,7 @@ import (
 )
 
 func init() {
-	register("C11", "Decides the structural clauses of run isolation: (R11.1) every accept path of every matcher compares a value that is unique to the run by construction: the echo id handed out by nextEchoID (ICMP), the local port of a socket that stays open until the entry point returns (UDP strict mode, TCP SYN), the 4-tuple of the dialled connection (SACK), plus the AllocPacketID-based IP-ID for TCP SYN time-exceeded; (R11.2) the package-level allocators have sync/atomic types, code reachable from the run entry points touches them only through one read-modify-write Add per allocation, AllocPacketID returns Add(n)-n with n the widened maxTTL and the SYN driver's ids are base+ttl; (R11.3) no other package-level variable is written from code reachable from the run entry points (reviewed table: internally synchronised cache, logger settings, test seams) and each driver owns freshly allocated parser, buffer and probe table. The 65536-live-identifier arithmetic and the relaxed-source UDP case (indistinguishable by design) are not decided. Package-level variables that run-path code hands to calls by address or by reference (pools, maps, caches) must be in the reviewed table.", runC11)
+	register("C11", "Decides the structural clauses of run isolation: (R11.1) every accept path of every matcher compares a value that is unique to the run by construction: the echo id handed out by nextEchoID (ICMP), the local port of a socket that stays open until the entry point returns (UDP strict mode, TCP SYN), the 4-tuple of the dialled connection (SACK), plus the AllocPacketID-based IP-ID for TCP SYN time-exceeded; (R11.2) the package-level allocators have sync/atomic types, code reachable from the run entry points touches them only through one read-modify-write Add per allocation, AllocPacketID returns Add(n)-n with n the widened maxTTL and the SYN driver's ids are base+ttl; (R11.3) no other package-level variable is written from code reachable from the run entry points (reviewed table: internally synchronised cache, logger settings, test seams) and each driver owns freshly allocated parser, buffer and probe table. The 65536-live-identifier arithmetic and the relaxed-source UDP case (indistinguishable by design) are not decided. Package-level variables that run-path code hands to calls by address or by reference (pools, maps, caches) must be in the reviewed table. Allocator state is recognised by structure (package-level sync/atomic values, or structs made of them; their methods); an identifier is the counter through conversions to >= 16 bits and constant shifts only.", runC11)
 	darwinRules["C11"] = runC11
 }
 
@@ -380,10 +380,10 @@ func checkGlobals(c *Ctx) {
 	// writes is a constant by the rule above; anything whose address is handed on (method calls on the variable, pools, maps,
 	// caches) is state that concurrent runs share and must be in the reviewed table
 	type guse struct {
-		name string
-		typ  string
-		fn   *ssa.Function
-		in   ssa.Instruction
+		name   string
+		typ    string
+		fn     *ssa.Function
+		in     ssa.Instruction
 		atomic bool
 	}
 	seenUse := map[string]bool{}
